@@ -58,3 +58,8 @@ Print Assumptions C09_each_fragment_wellformed.
 Example C09_instance :
   map (fun p => (fst p, length (snd p))) (spec_fragments (le_enc 4 65536%N ++ repeat 7%N 244)) = [(64%N, 4); (128%N, 244)].
 Proof. vm_compute. reflexivity. Qed.
+
+(* the limit is the protocol's 247 bytes *)
+Theorem C09_limit_is_247 : MAXB = 247%nat.
+Proof. exact MAXB_val. Qed.
+Print Assumptions C09_limit_is_247.
